@@ -10,6 +10,7 @@ import PV.Model.PySem
 import PV.Model.StructDead
 import PV.Model.Decisions
 import PV.Model.Registry
+import PV.Model.LCOM
 /-!
 Line-protocol driver: runs the executable models on the cases the harness also ran on the
 implementation.  Core-only imports (links as a native executable).
@@ -289,6 +290,18 @@ def runReg (t : Array String) : String :=
   let (ds, _) := parseDefs t 0
   joinWith ";" ((PV.Reg.registry (PV.Reg.allFuncs [] ds)).map fun r => s!"{r.name}:{r.s}:{r.e}")
 
+def natList (s : String) : List Nat := if s == "-" || s == "" then [] else (s.splitOn ",").map fun x => (tokI x).toNat
+
+/-- `lcom n attrs_0 … attrs_{n-1} calls_0 … calls_{n-1}` (each `a,b,c` or `-`) → `lcom4|groups` -/
+def runLcom (t : Array String) : String :=
+  if t.size < 1 then "bad-op" else
+  let n := (tokI t[0]!).toNat
+  if t.size < 1 + 2 * n then "bad-op" else
+  let c : PV.LCOM.Cls := { n := n, attrs := (List.range n).map (fun i => natList t[1 + i]!), calls := (List.range n).map (fun i => natList t[1 + n + i]!) }
+  match PV.LCOM.lcom4 c, PV.LCOM.groups c with
+  | some k, some gs => s!"{k}|{showGroups gs}"
+  | _, _ => "fuel-exhausted"
+
 def step (line : String) : String :=
   let parts := (line.splitOn " ").filter (· ≠ "")
   match parts with
@@ -307,6 +320,7 @@ def step (line : String) : String :=
     | "sdead" => runSDead t
     | "mccabe" => runMccabe t
     | "reg" => runReg t
+    | "lcom" => runLcom t
     | _ => "bad-op"
 
 partial def loop (h : IO.FS.Stream) (out : IO.FS.Stream) : IO Unit := do
